@@ -6,11 +6,16 @@ import json, glob, sys, os
 R = '/verif'
 main = json.load(open(f'{R}/known_findings.json'))
 seen = {(e['property'], e['key']) for e in main}
+args = sys.argv[1:]
+only = None
+if args and args[0] == '--only':
+    only = set(args[1].split(',')); args = args[2:]
 for f in sorted(glob.glob(f'{R}/known_findings.d/*.json')):
+    if only is not None and os.path.basename(f)[:-5] not in only:
+        continue
     for e in json.load(open(f)):
         if (e['property'], e['key']) not in seen:
             main.append(e); seen.add((e['property'], e['key']))
-args = sys.argv[1:]
 while args and args[0] == '--fixed':
     _, pid, key, commit = args[:4]; args = args[4:]
     for e in main:
